@@ -521,6 +521,8 @@ func (w *vpWorld) makeConstructor(r *vpReg) any {
 				w.captureTopo(scV.Interface().(*scope).rootProvider)
 			}
 		}
+		// what this invocation received is checked (and remembered as handed out) whether or not it is about to fail
+		w.monitorArgs(r, inv, scN, vals)
 		if w.preFail == ctor && r.withErr { // fails in the preliminary Build only: the later Build must not remember it
 			w.preFailed = true
 			w.preFailedOnce = true
@@ -553,7 +555,6 @@ func (w *vpWorld) makeConstructor(r *vpReg) any {
 			shown = append(shown, w.showVal(vals[k]))
 		}
 		shown = append(shown, w.showVal(scV), w.showVal(cxV))
-		w.monitorArgs(r, inv, scN, vals)
 		// outputs
 		var objs []reflect.Value
 		var ids []string
@@ -2485,6 +2486,10 @@ func (w *vpWorld) generateFaults(o vpGenOpts) {
 		// invocations - and is asked again later (a failed attempt leaves nothing behind, C15)
 		for _, reg := range w.regs {
 			if (reg.form == "ro" || reg.form == "multi") && reg.withErr && rng.Intn(2) == 0 {
+				w.beh[[2]int{reg.idx + 1, 1 + rng.Intn(2)}] = "err"
+			}
+			// a consumer (it has dependencies) that fails once and is resolved again: the retry builds its arguments anew
+			if reg.form != "inst" && reg.withErr && len(reg.deps) > 0 && rng.Intn(3) == 0 {
 				w.beh[[2]int{reg.idx + 1, 1 + rng.Intn(2)}] = "err"
 			}
 		}
